@@ -74,6 +74,7 @@ fn hk(s: &St) -> (usize, usize, Option<(usize, usize)>) {
 pub fn run(cases: &str, out: &str, from: usize, big: bool) {
     let txt = std::fs::read_to_string(cases).expect("read cases");
     let mut f = std::fs::OpenOptions::new().create(true).append(true).open(out).expect("open out");
+    let wd = crate::runner::Watchdog::start(format!("{}.hang", out), crate::runner::case_time_limit(big));
     for (idx, line) in txt.lines().enumerate() {
         if idx < from || line.trim().is_empty() {
             continue;
@@ -81,6 +82,7 @@ pub fn run(cases: &str, out: &str, from: usize, big: bool) {
         let case: Case = serde_json::from_str(line).expect("case");
         writeln!(f, "BEGIN {}", idx).unwrap();
         f.flush().unwrap();
+        wd.begin(|| line.to_string());
         let mut buf: Vec<u8> = Vec::new();
         let nt = match case.family {
             Family::P => run_one::<FamP>(&case, big, &mut buf),
